@@ -332,6 +332,11 @@ fn desc_arg(a: &Abs, t: &str) -> SegmentDesc {
         "DL" => all.last().copied().unwrap_or(d0),
         "DD" => all.iter().copied().find(|d| d.group_id >= 16 && d.in_group_id > 0).unwrap_or(d0),
         "DR" => all.iter().copied().find(|d| d.group_id < 16).unwrap_or(d0),
+        // same group (= same delta stream) as DD but in a later pack: in-group id above the pack cardinality
+        "DP" => {
+            let dd = all.iter().copied().find(|d| d.group_id >= 16 && d.in_group_id > 0).unwrap_or(d0);
+            all.iter().copied().find(|d| d.group_id == dd.group_id && d.in_group_id > 50).unwrap_or(dd)
+        }
         "DX" => SegmentDesc::new(100000, 0, false, 10),
         "DY" => SegmentDesc::new(a.refs.iter().find(|r| r.0 >= 16).map(|r| r.0).unwrap_or(100000), 100000, false, 10),
         _ => {
